@@ -1180,19 +1180,10 @@ func classifiedByCode(c *Ctx, errf *ssa.Call) bool {
 	}
 	exec := c.P.Func(retryPkg, "Execute")
 	var ops []*ssa.Function
-	for _, f := range c.P.LibFns {
-		ir.EachCall(f, func(call ssa.CallInstruction) {
-			if exec == nil || ir.StaticCallee(call) != exec {
-				return
-			}
-			for _, a := range call.Common().Args {
-				if mc, ok := a.(*ssa.MakeClosure); ok {
-					if cf, ok := mc.Fn.(*ssa.Function); ok {
-						ops = append(ops, cf)
-					}
-				}
-			}
-		})
+	if exec != nil {
+		for _, ro := range retryOps(c, exec) {
+			ops = append(ops, ro.op)
+		}
 	}
 	reach := c.ReachSync(ops...)
 	n := 0
